@@ -517,7 +517,7 @@ func (e *Engine) ptrNum(p PtrV) *Term {
 	case PByteEl:
 		return tb.Add(tb.App("addrof", BV64, p.Base), p.Off)
 	case PGlobal:
-		return tb.App("gaddr:"+p.Glob.String(), BV64)
+		return e.gaddr(p.Glob)
 	case PLocal:
 		panic(unsupported("address of non-escaping local used as number"))
 	}
@@ -644,4 +644,22 @@ func describeVal(tb *TB, v Val) string {
 		parts = append(parts, l.Name+"="+tb.Show(l.T))
 	}
 	return strings.Join(parts, " ")
+}
+
+
+// gaddr: the address of a package-level variable (an uninterpreted constant per variable; distinct variables have
+// distinct addresses).
+func (e *Engine) gaddr(g *ssa.Global) *Term {
+	t := e.tb.App("gaddr:"+g.String(), BV64)
+	if e.gaddrs == nil {
+		e.gaddrs = map[*Term]bool{}
+	}
+	if !e.gaddrs[t] {
+		for o := range e.gaddrs {
+			e.axioms = append(e.axioms, e.tb.Ne(t, o))
+		}
+		e.axioms = append(e.axioms, e.tb.Ne(t, e.tb.BVI(64, 0)))
+		e.gaddrs[t] = true
+	}
+	return t
 }
